@@ -147,6 +147,8 @@ def run_cases(ctx, cases, *, real_child=False):
             ctx.count("position:" + ("none" if f["position"] is None else "nonneg" if f["position"] >= 0 else "neg"))
             if v is None:
                 ctx.count("value:unset")
+            elif "..." in json.dumps(v):
+                ctx.count("value-with-three-dots")
         if d:
             ctx.count("rule:" + d)
         if isinstance(i["argv"], dict):
